@@ -6,7 +6,7 @@
     overlap_counterexample(_min) (F-C17a, open) and pinned_kwargs_counterexample (F-C17b, fixed);
     io.capture as a mode of the stream machine (Model/Act.lean `Mode`, Proofs/ActMode.lean): restore_forest_mode,
     restore_exec_nocapture, nocapture_passthrough(_init), captured_intact_mode, mode_extends_fwd, capture_mode_independent_classification,
-    save_out_independent_of_capture_partial (+ _refuted: the full statement is false of the code), live_rule_nocapture.
+    nocapture_overlap_harmless, save_out_independent_of_capture_partial (+ _refuted: the full statement is false of the code), live_rule_nocapture.
 (K) the real PythonAction / CmdAction / Task.execute of $VERIF_REPO are run on generated cases (harness/actlib.py)
     and every observable is compared with the Lean model through doitdrv.
 (P) the statement: classification by category, task stops at the first unsuccessful action and result/values
@@ -176,6 +176,9 @@ def requests_for(case):
                 {'model': 'act', 'op': 'streammode', 'forest': mode_forest(case, 'e')}]
     if k == 'overlap':
         return [{'model': 'act', 'op': 'stream', 'evs': actlib.overlap_evs(case)}]
+    if k == 'ncoverlap':
+        return [{'model': 'act', 'op': 'streammode', 'evs': actlib.overlap_mode_evs(case, 'o')},
+                {'model': 'act', 'op': 'streammode', 'evs': actlib.overlap_mode_evs(case, 'e')}]
     raise ValueError(k)
 
 
@@ -405,7 +408,7 @@ def ncnest_expect(case):
 
 
 RUNNERS = {'py': actlib.run_py, 'cmd': actlib.run_cmd, 'task': actlib.run_task, 'nested': actlib.run_nested,
-           'ncnest': actlib.run_nested, 'overlap': actlib.run_overlap}
+           'ncnest': actlib.run_nested, 'ncoverlap': actlib.run_overlap, 'overlap': actlib.run_overlap}
 
 
 # ----------------------------------------------------------------------------------------------
@@ -577,6 +580,21 @@ def judge(case, obs, model):
             cmp('mode-model-orig', 'K', live, mf['origLog'])
             # (P) nocapture_passthrough: in order, exactly once, whatever the verbosity of the capture-off executions
             cmp('nocapture-passthrough', 'P', live, want[chan])
+    elif k == 'ncoverlap':
+        if obs.get('problem'):
+            bad.append(('schedule-not-followed', 'K', obs['problem']))
+        written = [[st[1], st[2]] for st in case['schedule'] if st[0] == 'w']
+        # (P) nocapture_overlap_harmless: whatever the interleaving of the threads
+        cmp('cell-not-restored', 'P', obs['restored'], [True, True])
+        for (name, live), mf in zip((('out', 'O'), ('err', 'E')), model):
+            if not mf.get('ncOnly'):
+                bad.append(('bad-case', 'K', 'not a capture-off schedule'))
+            cmp('mode-cell', 'K', [mf['cell'] == 'orig'] * 2, obs['restored'])
+            cmp('mode-model-orig', 'K', obs[live], mf['origLog'])
+            cmp('nocapture-passthrough', 'P', obs[live], written)
+            for a in mf['out']:
+                cmp('mode-model-out', 'K', obs[name].get(a), mf['out'][a])
+                cmp('nocapture-stored', 'P', obs[name].get(a), None)
     elif k == 'overlap':
         m = model[0]
         if obs.get('problem'):
@@ -683,7 +701,7 @@ def shrink_candidates(case):
             c = copy.deepcopy(case)
             c['forest'] = f
             yield c
-    elif k == 'overlap':
+    elif k in ('overlap', 'ncoverlap'):
         acts = [a for th in case['threads'] for a in th]
         for a in acts:
             if len(acts) > 2:
@@ -892,6 +910,9 @@ def count_case(st, case):
                     st.count('runner.cmd' + ('.save_out.' + case['par'] if a.get('save_out') is not None else ''))
                 if a.get('end') == 'dict':
                     st.count('runner.values.' + case['par'])
+    elif k == 'ncoverlap':
+        st.count('ncoverlap.threads:%d.v:%s' % (len(case['threads']), case.get('v')))
+        st.count('ncoverlap.overlapping' if actlib.overlapping_pairs(case) else 'ncoverlap.disjoint')
     elif k == 'overlap':
         st.count('overlap.threads:%d' % len(case['threads']))
         st.count('overlap.overlapping' if actlib.overlapping_pairs(case) else 'overlap.disjoint')
@@ -1593,6 +1614,13 @@ def build_cases(ctx, scale):
                 cases.append(gen(r))
     # io.capture as a mode of the stream machine (own rng: the streams above are unchanged)
     cases += exhaustive_ncnest()
+    r3 = ctx.sub_rng('ncoverlap')
+    for v in (0, 1, 2):      # forced thread interleavings with capture off: all 20 of two threads + random ones
+        for c in exhaustive_overlap():
+            cases.append(dict(c, kind='ncoverlap', cap=False, v=v))
+    for i in range((60 if quick else 600) * scale):
+        c = gen_overlap(random.Random(r3.getrandbits(64)))
+        cases.append(dict(c, kind='ncoverlap', cap=False, v=r3.choice([0, 1, 2])))
     r2 = ctx.sub_rng('ncnest')
     for i in range((1200 if quick else 12000) * scale):
         cases.append(gen_ncnest(random.Random(r2.getrandbits(64))))
@@ -1605,7 +1633,7 @@ def cost(case):
         return 8
     if k == 'task':
         return 1 + 8 * sum(1 for a in case['actions'] if a['t'] == 'cmd')
-    if k == 'overlap':
+    if k in ('overlap', 'ncoverlap'):
         return 6
     return 1
 
